@@ -27,16 +27,18 @@ theorem send_trichotomy (m : Msg) (b : Bool) (w : W) (hcmd : m.cmd ∈ [(0 : Int
         (apiSend (some m) b w).2.st = w.st) ∨
     (errOf (apiSend (some m) b w).1 = none ∧ (apiSend (some m) b w).2.writes = w.writes ∧
         (apiSend (some m) b w).2.st.sbuf.get? m.key = some m ∧ Sleeping w.st m.node ∧ m.cmd = 1 ∧ b = true) ∨
-    (errOf (apiSend (some m) b w).1 = some (.lib .transportFailed) ∧
+    ((errOf (apiSend (some m) b w).1 = some (.lib .transportFailed) ∨
+        errOf (apiSend (some m) b w).1 = some (.foreign .CancelledError) ∧ w.faults.head? = some .cancel) ∧
         (apiSend (some m) b w).2.writes = w.writes ++ [⟨encode m, false⟩] ∧ (apiSend (some m) b w).2.st = w.st) := by
   have hwrite : ∀ w : W,
       (errOf (transportWrite (encode m) w).1 = none ∧ (transportWrite (encode m) w).2.writes = w.writes ++ [⟨encode m, true⟩] ∧
         (transportWrite (encode m) w).2.st = w.st) ∨
-      (errOf (transportWrite (encode m) w).1 = some (.lib .transportFailed) ∧
+      ((errOf (transportWrite (encode m) w).1 = some (.lib .transportFailed) ∨
+        errOf (transportWrite (encode m) w).1 = some (.foreign .CancelledError) ∧ w.faults.head? = some .cancel) ∧
         (transportWrite (encode m) w).2.writes = w.writes ++ [⟨encode m, false⟩] ∧ (transportWrite (encode m) w).2.st = w.st) := by
     intro w
     simp only [transportWrite]
-    split <;> simp [errOf]
+    split <;> simp_all [errOf]
   by_cases h1 : m.cmd = 1
   · by_cases hp : b = true ∧ Sleeping w.st m.node
     · right; left
@@ -91,7 +93,9 @@ example : errOf (apiSend (some ⟨1, 255, 3, 0, 13, []⟩) true { st := {} }).1 
 example : (apiSend (some ⟨1, 0, 1, 0, 2, ['7']⟩) true
     { st := { nodes := [(1, { ntype := 17, pv := [], sleeping := true })] } }).2.st.sbuf.get? (1, 0, 2)
     = some ⟨1, 0, 1, 0, 2, ['7']⟩ := by decide
-example : errOf (apiSend (some ⟨1, 0, 2, 0, 2, []⟩) false { st := {}, faults := [true] }).1 = some (.lib .transportFailed) := by
+example : errOf (apiSend (some ⟨1, 0, 2, 0, 2, []⟩) false { st := {}, faults := [.fail] }).1 = some (.lib .transportFailed) := by
+  decide
+example : errOf (apiSend (some ⟨1, 0, 2, 0, 2, []⟩) false { st := {}, faults := [.cancel] }).1 = some (.foreign .CancelledError) := by
   decide
 
 end AioMySensors.C12
